@@ -183,6 +183,7 @@ class C07(Check):
                               "sched": {"type": "preempt", "points": []}})
         cases += self.burst_cases([1, 2, 1023, 1024, 1025])
         cases += self.batch_cases()
+        cases += self.sweep_cases()
         # task objects that are falsy (a Task subclass with __len__/__bool__): `if not self._locked` takes a lock held by such a
         # task for free.  Exercised when the code carries the repair (fixes/C07-2_lock_falsy_holder.diff) or the finding is listed.
         fixed = any(t in REPAIRED for rel, qual, sts, span in self.extract for t, ln in sts)
@@ -234,6 +235,28 @@ class C07(Check):
             for sx in (["IndexError", None, None], [None, "BaseExc", None], [None, None, "KeyError"]):
                 c = case(threaded, [[dict(o="callLater")]], sx=sx); c["users"] = [[2, 2, 2, 0]]
                 out.append(c)
+        return out
+
+    def sweep_cases(self):
+        """'late thread' sweeps: small scenarios under a priority order in which one foreign thread runs only when nothing else can
+        — plus EVERY single pre-emption on top of it (the held-back thread, or any other, is let in between any two operations of
+        the scheduler / hub thread: e.g. between the last popleft of a drain and what follows it)"""
+        CL, SE, SX = {"o": "callLater"}, {"o": "syncEnter"}, {"o": "syncExit"}
+        S0 = {"o": "schedule", "t": 0}
+        out = []
+        for users, progs in (([], [[CL], [CL]]), ([[0]], [[S0], [S0]]), ([[0]], [[CL], [S0]]), ([], [[CL], [SE, SX]])):
+            for threaded in (False, True):
+                for order in (["F0", "S", "H", "F1"], ["S", "H", "F0", "F1"]):
+                    base = {"kind": "threads", "threaded": threaded, "users": users, "progs": progs}
+                    try:
+                        info = self.run_threads(dict(base, sched={"type": "preempt", "points": [], "order": order}), want_choices=True)
+                    except Exception:
+                        continue                     # the scenario itself is in the corpus: a tree that cannot run it is reported there
+                    for step, (names, chosen, at_action) in enumerate(info["choices"]):
+                        if not at_action or info["prev"][step] not in names: continue
+                        for n in names:
+                            if n != chosen:
+                                out.append(dict(base, sched={"type": "preempt", "points": [[step, n]], "order": order}))
         return out
 
     def burst_cases(self, sizes):
@@ -398,7 +421,7 @@ class C07(Check):
         # statement into a helper or renaming a local changes neither the events nor their order.  Lines are traced for coverage only.
         ctl = ft.Controller(chooser, trace_funcs=trace_funcs, yield_lines=(), max_steps=case.get("budget", MAX_STEPS),
                             frame_files=(self.rfile,), cover=cover)
-        ctl.roles, keep, creating = {}, [], []
+        ctl.roles, keep, creating, made = {}, [], [], {"clt": [], "st": [], "sync": []}
         def role(obj, r): ctl.roles[id(obj)] = r; keep.append(obj)
         ctl.pipe_role = lambda: (creating[-1] if creating else "hub")
         def namer(th):
@@ -426,6 +449,7 @@ class C07(Check):
                     finally:
                         creating.pop()
                         if me is not None: me.quiet -= 1
+                    made[kind].append(self)
                     if kind == "clt":
                         for name, v in list(vars(self).items()):
                             if isinstance(v, collections.deque):
@@ -466,11 +490,13 @@ class C07(Check):
             for n, v in attrs(hub, prim.Queue): role(v, "hub.incoming")
             incoming = [v for n, v in attrs(hub, prim.Queue)]
             def calls_q():
-                c = sched._callLaterTask
-                if c is None: return None
-                d = attrs(c, prim.Deque)
-                if len(d) != 1: raise HarnessError("the CallLaterTask has %d deque attributes" % len(d))
-                return d[0][1]
+                """the call queue(s) of the CallLaterTask(s) made so far (found by type, not by attribute name)"""
+                out = []
+                for c in made["clt"]:
+                    d = attrs(c, prim.Deque)
+                    if len(d) != 1: raise HarnessError("the CallLaterTask has %d deque attributes" % len(d))
+                    out.append(d[0][1])
+                return out
             st.sched = sched
             nf = len(case["progs"])
             insec = set()
@@ -618,8 +644,7 @@ class C07(Check):
             fthreads = [ctl.spawn("F%d" % i, functools.partial(foreign, i, p)) for i, p in enumerate(case["progs"])]
 
             def pending():
-                cq = calls_q()
-                return bool(ready_q.size() or (cq is not None and cq.size()) or any(q.qsize() for q in incoming))
+                return bool(ready_q.size() or any(q.size() for q in calls_q()) or any(q.qsize() for q in incoming))
             def on_step(c):
                 r = ready_q.peek()
                 if len(set(map(id, r))) != len(r): st.dup_ready = True
@@ -662,10 +687,9 @@ class C07(Check):
                         if s.syncer is t: return "sync%d" % tid
                     return "sync?"
                 return type(t).__name__
-            clt = sched._callLaterTask
-            def pending_calls(clt):
+            def pending_calls():
                 out, nth = [], {}
-                for f, a, k in (calls_q().peek() if clt is not None else []):
+                for f, a, k in [e for q in calls_q() for e in q.peek()]:
                     if len(a) >= 2: out.append([a[0], a[1]])
                     elif k: out.append([k.get("by"), k.get("seq")])
                     else:
@@ -678,7 +702,7 @@ class C07(Check):
                 "status": status, "steps": ctl.steps,
                 "raw": [[tid_of(n)] + list(k) + [1 if to else 0] for n, k, to in ctl.trace],
                 "executed": st.executed, "submitted": st.submitted,
-                "pending": pending_calls(clt),
+                "pending": pending_calls(),
                 "ready": [desc(t) for t in ready_q.peek()],
                 "slices": st.slices, "wake_marks": st.wake_marks,
                 "dup_ready": st.dup_ready, "insec_violations": st.insec_violations, "wrong_thread": st.wrong_thread,
